@@ -28,6 +28,31 @@ CLAIMED = {
         note="Lean kernel; axioms propext/Classical.choice/Quot.sound; hand model GMGModel/Tridiag.lean; floating-point backward "
              "stability is measured (<= 2^-34 componentwise), not proved.",
         technique="Lean 4 proof (induction over the Schur complement, Sherman-Morrison identity, quadratic forms) + differential correspondence"),
+    "C15": dict(
+        category="proof",
+        text="Lean 4 theorems about a field-by-field transcription of the hand-written copy/move members of Vector, SparseMatrixCOO, "
+             "SparseMatrixCSR, DiagonalSolver and SymmetricTridiagonalSolver over a heap of identified buffers, for every scalar type: "
+             "copy construction and copy assignment (any target size, including empty/moved-from source or target) never read or write "
+             "out of bounds, yield an observationally equal object with fresh, disjoint storage; moves transfer the state and leave the "
+             "documented empty object; well-formedness and absence of sharing are invariants of every operation sequence (induction); a "
+             "tridiagonal solver copied after it has factorised solves like its source.  Tie: 2500 random histories per run on the real "
+             "classes, every observable compared after every step, plus model-free oracles.",
+        design_ref="DESIGN.md section 4, C15",
+        note="Lean kernel; axioms propext/Classical.choice/Quot.sound; hand model GMGModel/Objects.lean; SparseLUSolver (std::vector members) "
+             "is tied by correspondence only; defects F1, F11a, F11b found here were repaired by fix: commits.",
+        technique="Lean 4 proof (invariant by induction over operation sequences, per-class unfolding) + differential histories on the real classes"),
+    "C16": dict(
+        category="proof",
+        text="Lean 4 theorems, any field, any dimension: the map-level row-by-row elimination of SparseLUSolver refines the dense "
+             "Doolittle recurrence; L*U = A entrywise with L unit lower and U upper triangular whenever no pivot vanishes; forward and "
+             "backward substitution are correct, so solve returns x with A x = b; the exit branch fires exactly when a pivot passes the "
+             "`tiny` test; the dense meaning of a row is invariant under permutation of its stored entries and insertion of stored "
+             "zeros; strictly diagonally dominant matrices have non-vanishing pivots.  Tie: real SparseMatrixCSR/SparseLUSolver on "
+             "700 random matrices per run vs the exact rational model, backward-error oracle.",
+        design_ref="DESIGN.md section 4, C16",
+        note="Lean kernel; axioms propext/Classical.choice/Quot.sound; std::unordered_map modelled as key-unique association list; the "
+             "absolute 1e-12 pivot test + std::exit is known finding F7 (open).",
+        technique="Lean 4 proof (row invariant of Doolittle elimination, finite-map refinement) + differential correspondence in exact rationals"),
 }
 
 PENDING_REASON = "not claimed yet: model and theorems for this property are still being built (see DESIGN.md section 7)"
